@@ -12,7 +12,6 @@ Pipeline (DESIGN 4/C20):
      against SetEq, element()/astype/real/complex/byaxis/byaxis_in/product-space indexing against SetSem,
      indexing vs asarray; disagreement with layer C only is DRIFT.
 """
-import itertools
 import json
 import os
 from concurrent.futures import ThreadPoolExecutor
